@@ -90,3 +90,49 @@ func premisesOf(kind string) []premiseRow {
 }
 
 var _ = strings.TrimSpace
+
+// reviewedFacts lists the constructor-established facts about EXPORTED fields
+// that size agreement may rely on (DESIGN §2.3 item 1). A fact about an
+// unexported field needs no row: only module code can store to it, and the
+// builder-store scan covers that. A fact about an exported field is something
+// the API does not enforce, so it is accepted only where the wire format fixes
+// the width and the row was confirmed by reading; a size function or encoder
+// that newly depends on such a fact fails the size rule.
+var reviewedFacts = map[string]map[string]string{
+	"openflow13.DescStats": {
+		"len($.MfrDesc)=256": "ofp_desc.mfr_desc is DESC_STR_LEN = 256 bytes", "len($.HWDesc)=256": "ofp_desc.hw_desc 256 bytes",
+		"len($.SWDesc)=256": "ofp_desc.sw_desc 256 bytes", "len($.SerialNum)=32": "ofp_desc.serial_num SERIAL_NUM_LEN = 32", "len($.DPDesc)=256": "ofp_desc.dp_desc 256 bytes"},
+	"openflow13.PhyPort":        {"len($.HWAddr)=6": "ofp_port.hw_addr OFP_ETH_ALEN = 6", "len($.Name)=16": "ofp_port.name OFP_MAX_PORT_NAME_LEN = 16"},
+	"openflow13.PortStatus":     {"len($.Desc.HWAddr)=6": "ofp_port.hw_addr", "len($.Desc.Name)=16": "ofp_port.name"},
+	"openflow13.SwitchFeatures": {"len($.DPID)=8": "datapath_id is 64 bits", "len($.Ports[*].HWAddr)=6": "ofp_port.hw_addr", "len($.Ports[*].Name)=16": "ofp_port.name"},
+	"openflow13.TableStats":     {"len($.Name)=32": "OFP_MAX_TABLE_NAME_LEN = 32"},
+	"protocol.ARP":              {"val($.HWLength)=6": "Ethernet hardware addresses", "val($.ProtoLength)=4": "IPv4 protocol addresses"},
+	"protocol.Ethernet":         {"len($.HWDst)=6": "Ethernet address", "len($.HWSrc)=6": "Ethernet address"},
+	"protocol.IGMPv3Query":       {"val($.NumberOfSources)=len($.SourceAddresses)": "count field of the source list (declared-length premise)"},
+	"protocol.IGMPv3GroupRecord": {"val($.NumberOfSources)=len($.SourceAddresses)": "count field of the source list (declared-length premise)"},
+}
+
+// factAllowed reports whether a used constructor fact may be relied upon for kind.
+func factAllowed(kind, fact string) bool {
+	if !strings.HasPrefix(fact, "len(") && !strings.HasPrefix(fact, "val(") {
+		return true // premises and no-overflow notes have their own tables/rules
+	}
+	i := strings.Index(fact, ")")
+	if i < 0 {
+		return false
+	}
+	path := fact[4:i]
+	// stored element lengths: decided by the C02 declen rules for every constructor and builder
+	if strings.HasSuffix(path, ".ActionHeader.Length") {
+		return true
+	}
+	last := path
+	if j := strings.LastIndex(path, "."); j >= 0 {
+		last = path[j+1:]
+	}
+	if last != "" && !(last[0] >= 'A' && last[0] <= 'Z') {
+		return true // unexported field
+	}
+	_, ok := reviewedFacts[kind][fact]
+	return ok
+}
